@@ -1,12 +1,13 @@
 import MidnightZK.Model.Common
 import MidnightZK.Model.C18.In
+import MidnightZK.Model.C18.Compare
 import MidnightZK.Model.C18.BinDec
 import MidnightZK.Model.C18.Json
 import MidnightZK.Gen.C18Serde
 /-! Line-protocol handler of property C18.
 
 Request: `run <instr>... | <name>=<value>... | <hash-table>...`
-Answer:  `load:.. | trace:.. | off:.. | cmp:.. | shp:.. | pi:.. | mock:.. | bin:.. | json:..`
+Answer:  `load:.. | trace:.. | off:.. | cmp:.. | shp:.. | ieq:.. | arch:.. | pi:.. | mock:.. | bin:.. | json:..`
 (the same sections the harness `h-c18` prints for the real implementation).
 
 Request: `dec <size_of Instruction> <size_of String> <hex bytes>` (`read_relation` on bytes)
@@ -351,6 +352,11 @@ def answerRun (withMock : Bool) (r : Request) : String :=
     let shpS := match compile H (interleavePublish r.prog) with
       | .ok ts => "ok:" ++ joinWith "," (ts.map fmtTy)
       | .error e => if e.isPanic then "panic" else "err:" ++ fmtErr e
+    -- gadget calls laid out by every comparison instruction (see `cmpTrace`)
+    let ieqS := joinWith "," ((cmpTrace H 0 {} r.prog).map (fun (k, e, a) => s!"{k}:{e}/{a}"))
+    let b01 (b : Bool) : String := if b then "1" else "0"
+    let archS := match usedChips r.prog with
+      | (j, p, s2, s5) => s!"jubjub={b01 j},poseidon={b01 p},sha2_256={b01 s2},sha2_512={b01 s5},others=0,pow2range_cols=4"
     -- `public_inputs` skips the in-circuit pass when nothing is published
     let pi : Option (Except Err (List Nat)) := match offRes, cmp with
       | .ok st, .ok ts => some (encodePI st.pis ts)
@@ -368,7 +374,7 @@ def answerRun (withMock : Bool) (r : Request) : String :=
         | .error (k, _), _ => "np:" ++ mockVerdict H (stripPublish (r.prog.take (k + 1))) r.wit []
         | _, _ => "-"
     joinWith " | " ["load:ok", "trace:" ++ joinWith " " trace, "off:" ++ offS, "cmp:" ++ cmpS,
-      "shp:" ++ shpS, "pi:" ++ piS, "mock:" ++ mockS, "bin:" ++ hexBytes (encodeBin r.prog),
+      "shp:" ++ shpS, "ieq:" ++ ieqS, "arch:" ++ archS, "pi:" ++ piS, "mock:" ++ mockS, "bin:" ++ hexBytes (encodeBin r.prog),
       "json:" ++ jsonText (toJson r.prog)]
 
 def answer (line : String) : String :=
